@@ -198,6 +198,19 @@ def gen_cases(rng, tier):
 
     yield from gen_newobj_cases(rng, tier)
 
+    # list reads whose lengths are keyword arguments, several times in ONE history with the same format text and keyword names and other values
+    # (deterministic coverage of what the random 'kwspell' steps reach only by luck: a parse memo keyed on the names would reuse the first lengths)
+    for _ in range(25 if tier == 'quick' else 400):
+        n = rng.choice([24, 32, 40, 64])
+        cls = rng.choice(['ConstBitStream', 'BitStream'])
+        kinds = [rng.choice(['uint', 'int', 'bin', 'bits', 'hex', 'pad']) for _ in range(rng.randrange(1, 4))]
+        steps = []
+        for _ in range(rng.randrange(2, 5)):
+            toks = [{'k': k, 'n': (4 * rng.randrange(1, 4) if k == 'hex' else rng.randrange(1, 9))} for k in kinds]
+            steps.append({'op': rng.choice(['readlist', 'peeklist', 'readlist']), 'toks': toks, 'kwspell': True})
+            if rng.random() < 0.4: steps.append({'op': 'setpos', 'p': rng.choice([0, 0, 3, 8])})
+        yield {'op': 'history', 'cls': cls, 'bits': rand_bits(rng, n), 'pos': 0, 'steps': steps}
+
     # the same kind of histories with options.lsb0 set (before the stream exists): every step is evaluated on the mode-parametric machine of StreamLsb.v
     # (step by step: content, position, value or exception); the machine is the judge here, the msb0 str reference does not apply
     for _ in range(70 if tier == 'quick' else 1500):
